@@ -235,6 +235,20 @@ func recvName(fd *ast.FuncDecl) string {
 	return ""
 }
 
+func recvType(fd *ast.FuncDecl) string {
+	if fd.Recv == nil || len(fd.Recv.List) == 0 {
+		return ""
+	}
+	t := fd.Recv.List[0].Type
+	if st, ok := t.(*ast.StarExpr); ok {
+		t = st.X
+	}
+	if id, ok := t.(*ast.Ident); ok {
+		return id.Name
+	}
+	return ""
+}
+
 func paramName(fd *ast.FuncDecl, i int) string {
 	k := 0
 	for _, f := range fd.Type.Params.List {
@@ -1422,6 +1436,10 @@ func main() {
 		{pkgs["formats"], "Format", "Minor"},
 		{pkgs["formats"], "Format", "Encoding"},
 		{pkgs["formats"], "Format", "Type"},
+		{pkgs["reader"], "Reader", "ParseStreamWithOptions"},
+		{pkgs["reader"], "Reader", "detectFormat"},
+		{pkgs["reader"], "", "GetFormatUnserializer"},
+		{pkgs["unserializers"], "", "readSPDXJSON"},
 	} {
 		fd := findFunc(sp.p, sp.recv, sp.name)
 		items := skeleton(sp.p, fd)
@@ -1433,6 +1451,89 @@ func main() {
 	}
 	sk.WriteString("end Protobom.Gen.Skel\n")
 	writeIfChanged(filepath.Join(*out, "Skel.lean"), sk.String())
+
+	// ---------------- nil guards per function (C04, C07)
+	var gd strings.Builder
+	gd.WriteString(header)
+	gd.WriteString("namespace Protobom.Gen.Guards\n\n")
+	{
+		var rows []string
+		for _, pn := range []string{"unserializers", "serializers", "reader", "writer"} {
+			p := pkgs[pn]
+			if p == nil {
+				continue
+			}
+			type fg struct {
+				name   string
+				guards []string
+			}
+			var fgs []fg
+			for _, f := range p.Syntax {
+				for _, d := range f.Decls {
+					fd, ok := d.(*ast.FuncDecl)
+					if !ok || fd.Body == nil {
+						continue
+					}
+					seen := map[string]bool{}
+					var gs []string
+					ast.Inspect(fd.Body, func(n ast.Node) bool {
+						be, ok := n.(*ast.BinaryExpr)
+						if !ok || (be.Op != token.NEQ && be.Op != token.EQL) {
+							return true
+						}
+						var x ast.Expr
+						if id, ok := be.Y.(*ast.Ident); ok && id.Name == "nil" {
+							x = be.X
+						} else if id, ok := be.X.(*ast.Ident); ok && id.Name == "nil" {
+							x = be.Y
+						}
+						if x != nil {
+							e := exprString(x)
+							if !seen[e] {
+								seen[e] = true
+								gs = append(gs, e)
+							}
+						}
+						return true
+					})
+					// recover() in a deferred closure counts as a guard named "recover"
+					ast.Inspect(fd.Body, func(n ast.Node) bool {
+						if ce, ok := n.(*ast.CallExpr); ok {
+							if id, ok := ce.Fun.(*ast.Ident); ok && id.Name == "recover" && !seen["recover()"] {
+								seen["recover()"] = true
+								gs = append(gs, "recover()")
+							}
+						}
+						return true
+					})
+					// named results (a deferred recover can only set those)
+					if fd.Type.Results != nil {
+						for _, r := range fd.Type.Results.List {
+							for _, nm := range r.Names {
+								gs = append(gs, "result:"+nm.Name)
+							}
+						}
+					}
+					name := fd.Name.Name
+					if r := recvType(fd); r != "" {
+						name = r + "." + name
+					}
+					fgs = append(fgs, fg{pn + "." + name, gs})
+				}
+			}
+			sort.Slice(fgs, func(i, j int) bool { return fgs[i].name < fgs[j].name })
+			for _, f := range fgs {
+				var li []string
+				for _, g := range f.guards {
+					li = append(li, leanStr(g))
+				}
+				rows = append(rows, fmt.Sprintf("(%s, [%s])", leanStr(f.name), strings.Join(li, ", ")))
+			}
+		}
+		fmt.Fprintf(&gd, "/-- per function: the expressions compared with nil, `recover()` if called, named results -/\ndef table : List (String × List String) := %s\n\n", leanList(rows))
+	}
+	gd.WriteString("end Protobom.Gen.Guards\n")
+	writeIfChanged(filepath.Join(*out, "Guards.lean"), gd.String())
 
 	// ---------------- access records
 	var ac strings.Builder
